@@ -177,12 +177,16 @@ def lib_open(spec, aad, ct, tag, path, label):
         dec.update(a)
     if path == "dav" or spec["mode"] == "SIV":
         return libcall(dec.decrypt_and_verify, ct, tag, allowed=(ValueError,), bucket="aead/%s/decrypt_and_verify" % label)
-    k, pt = libcall(dec.decrypt, ct, allowed=(ValueError,), bucket="aead/%s/decrypt" % label)
-    if k == "exc":
-        return k, pt
-    pt = bytes(pt)
-    if spec["mode"] == "OCB":
-        pt += bytes(dec.decrypt())
+    if len(ct) == 0 and spec["mode"] in ("GCM", "EAX", "CCM", "ChaCha20_Poly1305") and (len(tag) + sum(len(a) for a in aad)) % 2:
+        # MAC-only use of the object (documented: update() ... verify()): no decrypt() call at all for the empty message
+        pt = b""
+    else:
+        k, pt = libcall(dec.decrypt, ct, allowed=(ValueError,), bucket="aead/%s/decrypt" % label)
+        if k == "exc":
+            return k, pt
+        pt = bytes(pt)
+        if spec["mode"] == "OCB":
+            pt += bytes(dec.decrypt())
     if path == "split":
         k, r = libcall(dec.verify, tag, allowed=(ValueError,), bucket="aead/%s/verify" % label)
     else:
